@@ -1295,7 +1295,7 @@ def emit_overlap_fixture(which):
         for m, t in (("p1", "P1"), ("p2", "P2")):
             out += ["impl %s::%s for Ov {" % (m, t), "    type Error = Echo;", "    fn shared_name(&self, ctx: SudoCtx, a: u64) -> Result<Response, Echo> { Err(Echo::Std) }",
                     "    fn only_%s(&self, ctx: SudoCtx) -> Result<Response, Echo> { Err(Echo::Std) }" % m, "}"]
-    T_OBLIGATIONS.append(dict(name="%s.T.rejected" % mod, feature="g_overlap_" + which, props=["C05"], fixture=mod, tier="quick", expect_reject="overlaps"))
+    T_OBLIGATIONS.append(dict(name="%s.T.rejected" % mod, feature="g_overlap_" + which, props=["C05", "C03"], fixture=mod, tier="quick", expect_reject="overlaps"))
     return mod, "g_overlap_" + which, "\n".join(out) + "\n"
 
 
